@@ -87,12 +87,11 @@ func (g *Gen) writeCases(a *vh.Args, rep *vh.Report) int {
 			os.Remove(f)
 		}
 	}
-	cases := vh.NewCases(a, header, "case", "mismatches tables", 500)
+	cases := vh.NewCases(a, header, "case", "mismatches tables", 650)
 	idx := 0
+	// one operand row per program in both tiers: the thorough tier has 4.5 times the programs (every place shape for every
+	// operator / kind / constant), i.e. about 19 000 cases = 30 shards of 20-40 s of coqc; 4 rows each would be 156 shards
 	per := 1
-	if a.Thorough() {
-		per = 4
-	}
 	for _, f := range g.fns {
 		if f.Coq == nil || f.K == nil || !f.K.IsInt() || f.gm == nil || f.ExpectCE || f.Class != "" {
 			continue
